@@ -425,6 +425,42 @@ def native_replay(o):
     return info
 
 
+def obligations_array_form(rep):
+    """BOUNDED (finite directed cases, never counted as proved): the ndarray branch of diff_ulp dispatches to the scalar branch
+    element by element; what it returns must still be those integers."""
+    import functional_algorithms.utils as U
+
+    for t in (numpy.float16, numpy.float32, numpy.float64):
+        fi = numpy.finfo(t)
+        vals = [t(-numpy.pi), t(3.3), t(1), numpy.nextafter(t(1), t(2)), t(-2.5), t(0.1), t(0.0), t(-0.0), fi.max, -fi.max, fi.smallest_subnormal, -fi.smallest_normal, t(numpy.inf), t(numpy.nan)]
+        fails = []
+        n = 0
+        shapes = [((0, 1, 2), (1, 3, 5)), ((0, 2), (1, 5)), ((8,), (9,)), ((2, 4, 13), (3, 13, 13)), ((0, 1, 8, 4), (1, 0, 9, 5)), ((12, 0), (0, 13))]
+        with numpy.errstate(all="ignore"):
+            for flush in (False, True):
+                for equal_nan in (False, True):
+                    for ix, iy in shapes:
+                        for twod in (False, True):
+                            x = numpy.array([vals[i] for i in ix], dtype=t)
+                            y = numpy.array([vals[i] for i in iy], dtype=t)
+                            if twod:
+                                if len(ix) % 2:
+                                    continue
+                                x, y = x.reshape(2, -1), y.reshape(2, -1)
+                            n += 1
+                            want = [U.diff_ulp(a, b, flush_subnormals=flush, equal_nan=equal_nan) for a, b in zip(x.ravel(), y.ravel())]
+                            try:
+                                r = numpy.asarray(U.diff_ulp(x, y, flush_subnormals=flush, equal_nan=equal_nan))
+                                got = [int(v) for v in r.ravel()]
+                                ok = got == [int(w) for w in want] and r.shape == x.shape and r.dtype.kind in "iuO"
+                                if not ok:
+                                    fails.append(dict(x=[repr(v) for v in x.ravel()], y=[repr(v) for v in y.ravel()], shape=list(x.shape), flush=flush, equal_nan=equal_nan, got=[str(g) for g in got], want=[str(int(w)) for w in want], dtype=str(r.dtype)))
+                            except Exception as e:
+                                fails.append(dict(x=[repr(v) for v in x.ravel()], y=[repr(v) for v in y.ravel()], shape=list(x.shape), flush=flush, equal_nan=equal_nan, raised=repr(e)[:200]))
+        rep.add(core.decided("C14/bounded/array-form/%s" % tname(t), PROP, not fails and n > 0, functions=("utils.diff_ulp",), text="bounded stand-in: diff_ulp on ndarrays returns the scalar distances of the elements, as integers (%d directed array pairs)" % n, detail=dict(failures=fails[:3], cases=n), kind="bounded", solver="native-run", meta=dict(part="bounded", fails=fails[:3], t=tname(t))))
+    rep.bounded.append(dict(what="diff_ulp(ndarray, ndarray): elementwise equal to the scalar branch, integer result type (1-d and 2-d, distances below and above 2**63 together, non-finite elements, both flush and equal_nan settings)", bound="about 40 directed array pairs per format", counted_as_proved=False))
+
+
 def build(tier):
     rep = core.Report(PROP, tier)
     rep.trust(
@@ -433,7 +469,7 @@ def build(tier):
         "NumPy scalar arithmetic on float16/32/64 = SMT-LIB FloatingPoint with roundNearestTiesToEven",
     )
     rep.assume(*symrun.MODELS_DOC)
-    rep.assume("list/ndarray dispatch branches of diff_ulp are outside the statement (scalar and complex branches are under contract)")
+    rep.assume("list/ndarray dispatch branches of diff_ulp are outside the proof (scalar and complex branches are under contract); the ndarray branch has a bounded stand-in")
     rep.extraction_drops.append("nothing from the function bodies: the code objects of utils.diff_ulp / diff_log2ulp / ulp are executed with shadowed builtins (isinstance,int,abs,type,bool,float) and a numpy proxy")
     rep.notes.append("one obligation per feasible path of the real code object; inputs range over ALL bit patterns of the format (including NaN/inf/subnormals)")
     rep.under_contract("utils.diff_ulp", ["finite: result == |rank(x)-rank(y)|", "flush=True: subnormals collapse to 0 / smallest normal", "non-finite: 0 or 2**bits", "complex: max of components (modular)"])
@@ -445,6 +481,7 @@ def build(tier):
     obligations_complex(rep)
     obligations_log2(rep)
     obligations_ulp(rep)
+    obligations_array_form(rep)
     # canary: the wrong spec |rank(x)+rank(y)| must be refutable
     t = numpy.float16
     x, y = z3.FP("x", fp_sort(t)), z3.FP("y", fp_sort(t))
@@ -452,6 +489,7 @@ def build(tier):
     s.add(finite(x), finite(y), spec_plain(x, y, t) != babs(rank(x, t) + rank(y, t)))
     rep.add(core.smt("C14/canary/sum-instead-of-difference", PROP, s, text="canary: |rx+ry| differs from |rx-ry| somewhere", expect="sat", kind="canary", budget_s=30))
     rep.replayers["C14/utils."] = native_replay
+    rep.replayers["C14/bounded"] = lambda o: dict(replayed=bool((o.meta or {}).get("fails")), failing_inputs=(o.meta or {}).get("fails"), witness_class="array-form %s" % (o.meta or {}).get("t"))
     return rep
 
 
